@@ -76,6 +76,36 @@ def acceptStep (a : AS) (ws : List String) : AS × List String :=
       | ["close"] => out a s (close s) 0
       | _ => (a, ["bad-op"])
 
-def modes : List (String × IO Unit) := [("accept", runLines ({} : AS) acceptStep)]
+/-- mode `wcheck`: `w2|tw2 <fd> <writable> <isPipe> <ipc> <connecting> <wq> <hfd|->` -/
+def wcheckStep (u : Unit) (ws : List String) : Unit × List String :=
+  match ws with
+  | [] => (u, [])
+  | [fn, fd, wr, ip, ipc, cn, wq, h] =>
+    let s : WStream := { fd := int! fd, writable := wr = "1", isPipe := ip = "1", ipc := ipc = "1",
+                         connecting := cn = "1", wqSize := nat! wq }
+    let send := if h = "-" then none else some (int! h)
+    let r := if fn = "w2" then some (write2Check s send) else if fn = "tw2" then some (tryWrite2Check s send) else none
+    match r with
+    | none => (u, ["bad-op"])
+    | some none => (u, ["pass"])
+    | some (some e) => (u, [s!"refuse {e}"])
+  | _ => (u, ["bad-op"])
+
+/-- mode `connect`: `tcp <sockErr> <r>` | `pipe <argErr> <sockErr> <r>` | `io <soError>` | `close` | `destroy` -/
+def connectStep (c : Conn) (ws : List String) : Conn × List String :=
+  let cbsOf (old new : Conn) := (new.cbs.drop old.cbs.length).map fun (r, st) => s!"cb {r} {st}"
+  match ws with
+  | [] => (c, [])
+  | ["reset"] => ({}, ["reset"])
+  | ["tcp", e, r] => let (c', rc) := tcpConnect c (int! e) (int! r); (c', [s!"ret {rc}"])
+  | ["pipe", a, e, r] => let (c', rc) := pipeConnect c (int! a) (int! e) (int! r); (c', [s!"ret {rc}"])
+  | ["io", so] => let c' := streamConnect c (int! so); (c', cbsOf c c')
+  | ["close"] => (connClose c, [])
+  | ["destroy"] => let c' := connDestroy c; (c', cbsOf c c')
+  | _ => (c, ["bad-op"])
+
+def modes : List (String × IO Unit) :=
+  [("accept", runLines ({} : AS) acceptStep), ("wcheck", runLines () wcheckStep),
+   ("connect", runLines ({} : Conn) connectStep)]
 
 end Drivers.C07
